@@ -346,6 +346,8 @@ def tasks(tier):
         ts.append(Task(f'protocol.n{n}', P8.t_protocol(n), extra=dict(x, bounded=f'{n} resting orders + one reaction order'), overrides=dict(ov),
                        max_paths=200000))
     ts.append(Task('fixed-jump', P7.t_fixed_jump, extra=dict(x, spec_mod=P7.SPEC), overrides=dict(ov)))
+    import props.C01 as P1
+    ts.append(Task('chunk-clock.reaction', (lambda h: P1.t_chunk_clock(h, True)), extra=dict(x), overrides=dict(ov), max_paths=20000))
     ts.append(Task('protocol.chunk', P8.t_protocol_chunk(2), extra=dict(x, bounded='chunk of 2 minutes, one resting order then two candidates after each fill'),
                    overrides=dict(ov), max_paths=400000))
     for s_ in ('_step_simulator', '_skip_simulator'):
